@@ -4,7 +4,7 @@ C04 — property theorems about the model in `NipyVerif.Model.C04`:
 obtained by mapping that voxel's world position through the supplied transform …".
 Only property statements and their non-vacuity examples live here.
 -/
-import NipyVerif.Lemmas.C04
+import NipyVerif.Props.C04B
 
 namespace NipyVerif.C04
 
@@ -203,19 +203,93 @@ theorem prepad_lookup {n : Nat} (g : Grid n) (k : Nat) (p : Fin n → Int) (hp :
     have := hp i
     rw [clampInt_id] <;> omega
 
+/-- the same for the fill-value pad of `grid-constant` -/
+theorem prepad_const_lookup {n : Nat} (g : Grid n) (k : Nat) (c : Rat) (p : Fin n → Int) (hp : g.inside p) :
+    (padConst g k c).inside (fun i => p i + (k : Int)) ∧
+    (padConst g k c).val (fun i => p i + (k : Int)) = g.val p := by
+  constructor
+  · intro i
+    have := hp i
+    simp only [padConst]
+    push_cast
+    omega
+  · simp only [padConst]
+    have e : (fun i => p i + (k : Int) - (k : Int)) = p := by funext i; omega
+    rw [e, if_pos ((insideB_iff g p).2 hp)]
+
 /-- `evaluate` at the world position of voxel `p` returns the sample at `p`, whatever the
-    order/mode (i.e. with or without pre-padding). -/
+    order/mode/fill value (i.e. with or without pre-padding, of either kind). -/
 theorem interpolator_lattice {n : Nat} (I : Interp n) (g : Grid n) (src srcInv : Aff n n)
-    (hinv : ∀ x, srcInv.apply (src.apply x) = x) (order : Nat) (mode : String)
+    (hinv : ∀ x, srcInv.apply (src.apply x) = x) (order : Nat) (mode : String) (cval : Rat)
     (p : Fin n → Int) (hp : g.inside p) :
-    I.eval (padEdge g (nPrepad order mode)) (evalCoords srcInv order mode (src.apply (castPt p)))
+    I.eval (knots g order mode cval) (evalCoords srcInv order mode (src.apply (castPt p)))
       = g.val p := by
   have hc : evalCoords srcInv order mode (src.apply (castPt p))
       = castPt (fun i => p i + ((nPrepad order mode : Nat) : Int)) := by
     funext i
     simp [evalCoords, hinv, castPt]
-  obtain ⟨h1, h2⟩ := prepad_lookup g (nPrepad order mode) p hp
-  rw [hc, I.at_lattice _ _ h1, h2]
+  unfold knots
+  split
+  · obtain ⟨h1, h2⟩ := prepad_const_lookup g (nPrepad order mode) cval p hp
+    rw [hc, I.at_lattice _ _ h1, h2]
+  · obtain ⟨h1, h2⟩ := prepad_lookup g (nPrepad order mode) p hp
+    rw [hc, I.at_lattice _ _ h1, h2]
+
+/-- the pre-pad *is* the boundary mode it stands for: every knot of the padded array holds what
+    the mode's own index extension reads there — the border samples for `nearest` … -/
+theorem prepad_edge_is_nearest {n : Nat} (g : Grid n) (hpos : ∀ i, 0 < g.shape i) (k : Nat) (c : Rat)
+    (q : Fin n → Int) :
+    (padEdge g k).val q = extValue .nearest c g (fun i => q i - (k : Int)) := by
+  have hall : (List.finRange n).all (fun i => (extIndex .nearest (g.shape i) (q i - (k : Int))).isSome) = true := by
+    rw [List.all_eq_true]
+    intro i _
+    rw [boundary_nearest_clamps _ (hpos i)]
+    rfl
+  simp only [extValue, extPoint]
+  rw [if_pos hall]
+  simp only [padEdge]
+  congr 1
+  funext i
+  rw [boundary_nearest_clamps _ (hpos i)]
+  have := clampInt_mem 0 ((g.shape i : Int) - 1) (q i - (k : Int)) (by have := hpos i; omega)
+  simp only [Option.getD_some]
+  omega
+
+/-- … and the fill value for `grid-constant` (the statement the edge-replicating pre-pad of
+    `ImageInterpolator` violated) -/
+theorem prepad_const_is_grid_constant {n : Nat} (g : Grid n) (k : Nat) (c : Rat) (q : Fin n → Int) :
+    (padConst g k c).val q = extValue .gridConstant c g (fun i => q i - (k : Int)) := by
+  simp only [padConst]
+  by_cases hin : g.insideB (fun i => q i - (k : Int)) = true
+  · rw [if_pos hin]
+    have hi := (insideB_iff g _).1 hin
+    have hall : (List.finRange n).all (fun i => (extIndex .gridConstant (g.shape i) (q i - (k : Int))).isSome) = true := by
+      rw [List.all_eq_true]
+      intro i _
+      rw [extIndex_inside _ _ _ (hi i).1 (hi i).2]
+      rfl
+    simp only [extValue, extPoint]
+    rw [if_pos hall]
+    congr 1
+    funext i
+    rw [extIndex_inside _ _ _ (hi i).1 (hi i).2]
+    simp only [Option.getD_some]
+    have h0 : 0 ≤ q i - (k : Int) := (hi i).1
+    omega
+  · rw [if_neg hin]
+    have hall : ¬ (List.finRange n).all (fun i => (extIndex .gridConstant (g.shape i) (q i - (k : Int))).isSome) = true := by
+      intro hc
+      apply hin
+      rw [insideB_iff]
+      intro i
+      have hs := (List.all_eq_true.1 hc) i (List.mem_finRange i)
+      by_contra hout
+      have : extIndex .gridConstant (g.shape i) (q i - (k : Int)) = none :=
+        (extIndex_none_iff _ _ _).2 ⟨rfl, hout⟩
+      rw [this] at hs
+      cases hs
+    simp only [extValue, extPoint]
+    rw [if_neg hall]
 
 /-! ## Concrete interpolators satisfying the hypotheses -/
 
@@ -400,6 +474,373 @@ theorem xyz_reorder_same_world_partial (v : Vol) : SameWorld (Vol.sortAxes 3 v).
     · exact h1.trans h0
   exact (hneg _).trans (hsort 3 v)
 
+/-- `composed_with_transform` (a world-to-world affine applied to an image of the datasets
+    package, no resampling): every sample moves to the image of its world position -/
+theorem vol_compose_world (W A : Aff 3 3) (x : Vec 3) :
+    (volCompose W A).apply x = W.apply (A.apply x) := by
+  unfold volCompose
+  rw [Aff.apply_comp]
+
+/-! ## The dtype pipeline: what is stored for every source and output dtype -/
+
+/-- Linear field, every entry point, every source dtype: when the entry point's output dtype is a
+    floating one, the stored value *is* the field at the mapped world position (interpolation is
+    done in floating point and nothing is cast). -/
+theorem linear_field_reproduced_typed {n k : Nat} (e : Entry) (sdt : DType) (asked : Option DType)
+    (order : Nat) (hf : (outDType e sdt asked order).intRange = none)
+    (I : Interp n) (hI : I.LinearExact) (g : Grid n)
+    (src srcInv mapping : Aff n n) (tgt : Aff n k) (c : Aff 1 n)
+    (hinv : ∀ y, src.apply (srcInv.apply y) = y)
+    (hdata : ∀ p, g.inside p → g.val p = c.apply (src.apply (castPt p)) 0)
+    (v : Fin k → Int) (hfov : g.inFov ((resampleMap srcInv mapping tgt).apply (castPt v))) :
+    entryValue e sdt asked order I g (resampleMap srcInv mapping tgt) v
+      = c.apply (mapping.apply (tgt.apply (castPt v))) 0 := by
+  unfold entryValue storeValue
+  rw [cast_float_exact _ _ hf, linear_field_reproduced I hI g src srcInv mapping tgt c hinv hdata v hfov]
+
+/-- … in particular for the general resampler (both branches), for *every* source dtype and
+    without any condition: an int16, uint8 or boolean image is resampled as exactly as a float64
+    one. -/
+theorem linear_field_reproduced_every_dtype {n k : Nat} (sdt : DType) (asked : Option DType) (order : Nat)
+    (I : Interp n) (hI : I.LinearExact) (g : Grid n)
+    (src srcInv mapping : Aff n n) (tgt : Aff n k) (c : Aff 1 n)
+    (hinv : ∀ y, src.apply (srcInv.apply y) = y)
+    (hdata : ∀ p, g.inside p → g.val p = c.apply (src.apply (castPt p)) 0)
+    (v : Fin k → Int) (hfov : g.inFov ((resampleMap srcInv mapping tgt).apply (castPt v))) :
+    entryValue .resampleAffine sdt asked order I g (resampleMap srcInv mapping tgt) v
+      = c.apply (mapping.apply (tgt.apply (castPt v))) 0 ∧
+    entryValue .resampleInterp sdt asked order I g (resampleMap srcInv mapping tgt) v
+      = c.apply (mapping.apply (tgt.apply (castPt v))) 0 :=
+  ⟨linear_field_reproduced_typed _ sdt asked order rfl I hI g src srcInv mapping tgt c hinv hdata v hfov,
+   linear_field_reproduced_typed _ sdt asked order rfl I hI g src srcInv mapping tgt c hinv hdata v hfov⟩
+
+/-- Integer output dtypes (only the registration resampler, when asked or by its documented
+    default): the stored value is the field rounded to the nearest integer — within one half of
+    it whenever the field lies in the dtype's range. -/
+theorem linear_field_rounded_typed {n k : Nat} (e : Entry) (sdt : DType) (asked : Option DType)
+    (order : Nat) (lo hi : Int) (hr : (outDType e sdt asked order).intRange = some (lo, hi))
+    (I : Interp n) (hI : I.LinearExact) (g : Grid n)
+    (src srcInv mapping : Aff n n) (tgt : Aff n k) (c : Aff 1 n)
+    (hinv : ∀ y, src.apply (srcInv.apply y) = y)
+    (hdata : ∀ p, g.inside p → g.val p = c.apply (src.apply (castPt p)) 0)
+    (v : Fin k → Int) (hfov : g.inFov ((resampleMap srcInv mapping tgt).apply (castPt v)))
+    (hlo : (lo : Rat) ≤ c.apply (mapping.apply (tgt.apply (castPt v))) 0)
+    (hhi : c.apply (mapping.apply (tgt.apply (castPt v))) 0 ≤ (hi : Rat)) :
+    |entryValue e sdt asked order I g (resampleMap srcInv mapping tgt) v
+      - c.apply (mapping.apply (tgt.apply (castPt v))) 0| ≤ 1 / 2 := by
+  unfold entryValue storeValue
+  rw [linear_field_reproduced I hI g src srcInv mapping tgt c hinv hdata v hfov]
+  exact cast_within_half _ _ lo hi hr _ hlo hhi
+
+/-- Fill value, every entry point and source dtype: a target voxel mapped beyond the
+    interpolator's margin holds the fill value stored in the output dtype … -/
+theorem fill_value_outside_typed {n k : Nat} (e : Entry) (sdt : DType) (asked : Option DType)
+    (order : Nat) (I : Interp n) (g : Grid n) (c margin : Rat) (M : Aff n k)
+    (hI : I.FillsBeyond c margin) (v : Fin k → Int)
+    (hout : ∃ i, M.apply (castPt v) i < -margin ∨
+      ((g.shape i : Int) : Rat) - 1 + margin < M.apply (castPt v) i) :
+    entryValue e sdt asked order I g M v = storeValue e sdt asked order c := by
+  unfold entryValue
+  rw [fill_value_outside I g c margin M hI v hout]
+
+/-- … which for the general resampler is the fill value itself, for every source dtype
+    (`cval = -7.5` stays `-7.5` on an int16 or uint8 image). -/
+theorem fill_value_outside_every_dtype {n k : Nat} (sdt : DType) (asked : Option DType)
+    (order : Nat) (I : Interp n) (g : Grid n) (c margin : Rat) (M : Aff n k)
+    (hI : I.FillsBeyond c margin) (v : Fin k → Int)
+    (hout : ∃ i, M.apply (castPt v) i < -margin ∨
+      ((g.shape i : Int) : Rat) - 1 + margin < M.apply (castPt v) i) :
+    entryValue .resampleAffine sdt asked order I g M v = c ∧
+    entryValue .resampleInterp sdt asked order I g M v = c := by
+  constructor <;>
+  · rw [fill_value_outside_typed _ sdt asked order I g c margin M hI v hout]
+    exact cast_float_exact _ _ rfl c
+
+/-- Lattice look-up through the dtype pipeline: a looked-up sample that the output dtype can hold
+    is stored unchanged. -/
+theorem lattice_lookup_typed {n k : Nat} (e : Entry) (sdt : DType) (asked : Option DType) (order : Nat)
+    (I : Interp n) (g : Grid n) (fill : Option Rat) (M : Aff n k) (v : Fin k → Int) (r : Rat)
+    (hfill : ∀ c, fill = some c → I.FillsOutside c)
+    (h : latticeLookup g fill M v = some r)
+    (hrep : (outDType e sdt asked order).representable r = true) :
+    entryValue e sdt asked order I g M v = r := by
+  unfold entryValue storeValue
+  rw [lattice_lookup I g fill M v r hfill h]
+  cases hr : (outDType e sdt asked order).intRange with
+  | none => exact cast_float_exact _ _ hr r
+  | some lh =>
+    exact cast_representable_exact _ _ r (by unfold DType.isIntegral; rw [hr]; rfl) hrep
+
+/-- … in particular when the output dtype is the image's own (the registration resampler's
+    default, nearest-neighbour look-ups of the datasets package): every looked-up sample of an
+    array of that dtype comes back exactly, whatever the dtype. -/
+theorem lattice_lookup_same_dtype {n k : Nat} (e : Entry) (sdt : DType) (asked : Option DType) (order : Nat)
+    (hsame : outDType e sdt asked order = sdt)
+    (I : Interp n) (g : Grid n) (hg : g.Typed sdt) (M : Aff n k) (v : Fin k → Int) (p : Fin n → Int)
+    (hp : M.apply (castPt v) = castPt p) (hin : g.inside p) :
+    entryValue e sdt asked order I g M v = g.val p := by
+  have hl : latticeLookup g none M v = some (g.val p) := by
+    unfold latticeLookup
+    rw [hp, latticePt_castPt]
+    simp [(insideB_iff g p).2 hin]
+  exact lattice_lookup_typed e sdt asked order I g none M v _ (fun c hc => by cases hc) hl
+    (by rw [hsame]; exact hg p hin)
+
+/-! ## Boundary modes on `n`-dimensional indices -/
+
+/-- `boundary_index_in_range`, n-D: the point a boundary mode reads lies in the array -/
+theorem boundary_point_in_range {n : Nat} (m : Mode) (g : Grid n) (hpos : ∀ i, 0 < g.shape i)
+    (p q : Fin n → Int) (h : extPoint m g p = some q) : g.inside q := by
+  unfold extPoint at h
+  split at h
+  · rename_i hall
+    have hq := Option.some.inj h
+    intro i
+    have hs := (List.all_eq_true.1 hall) i (List.mem_finRange i)
+    obtain ⟨j, hj⟩ := Option.isSome_iff_exists.1 hs
+    have hlt := boundary_index_in_range m (g.shape i) (hpos i) (p i) j hj
+    rw [← hq]
+    simp only [hj, Option.getD_some]
+    omega
+  · cases h
+
+/-- a point of the array is read as itself under every mode -/
+theorem boundary_point_inside {n : Nat} (m : Mode) (g : Grid n) (p : Fin n → Int) (hp : g.inside p) :
+    extPoint m g p = some p := by
+  have hall : (List.finRange n).all (fun i => (extIndex m (g.shape i) (p i)).isSome) = true := by
+    rw [List.all_eq_true]
+    intro i _
+    rw [extIndex_inside _ _ _ (hp i).1 (hp i).2]
+    rfl
+  unfold extPoint
+  rw [if_pos hall]
+  congr 1
+  funext i
+  rw [extIndex_inside _ _ _ (hp i).1 (hp i).2]
+  simp only [Option.getD_some]
+  have := (hp i).1
+  omega
+
+/-- `lattice_lookup` under every boundary mode: when the voxel map sends target voxel `v` onto an
+    integer point — inside *or outside* the array — an interpolator that realises the mode returns
+    the sample the mode's index extension designates (the fill value for the constant modes).
+    `latticeLookupMode` is what the driver prints. -/
+theorem lattice_lookup_mode {n k : Nat} (I : Interp n) (g : Grid n) (m : Mode) (order : Nat)
+    (cval : Rat) (M : Aff n k) (v : Fin k → Int) (r : Rat) (hI : I.Extends m cval)
+    (h : latticeLookupMode g m order cval M v = some r) : resampled I g M v = r := by
+  unfold latticeLookupMode at h
+  unfold resampled
+  split at h
+  · rename_i p hp
+    rw [latticePt_some _ _ hp, hI g p]
+    by_cases hin : g.insideB p = true
+    · rw [if_pos hin] at h
+      have := boundary_point_inside m g p ((insideB_iff g p).1 hin)
+      simp only [extValue, this]
+      exact Option.some.inj h
+    · rw [if_neg hin] at h
+      split at h
+      · exact Option.some.inj h
+      · cases h
+  · cases h
+
+/-- an interpolator realising a mode reproduces the samples, and one realising `constant` fills
+    outside: `Extends` subsumes the two lattice laws used above -/
+theorem extends_constant_fills {n : Nat} (I : Interp n) (c : Rat) (h : I.Extends .constant c) :
+    I.FillsOutside c := by
+  intro g p hp
+  rw [h g p]
+  have hall : ¬ (List.finRange n).all (fun i => (extIndex .constant (g.shape i) (p i)).isSome) = true := by
+    intro hc
+    apply hp
+    intro i
+    have hs := (List.all_eq_true.1 hc) i (List.mem_finRange i)
+    by_contra hout
+    have : extIndex .constant (g.shape i) (p i) = none := (extIndex_none_iff _ _ _).2 ⟨rfl, hout⟩
+    rw [this] at hs
+    cases hs
+  simp only [extValue, extPoint]
+  rw [if_neg hall]
+
+/-- order 0 under any boundary mode, any dimension: a concrete interpolator realising the mode -/
+def nearestInterpMode (n : Nat) (m : Mode) (cval : Rat) : Interp n where
+  eval := nearestEvalMode m cval
+  at_lattice := by
+    intro g p hp
+    have : (fun i => roundHalfUp (castPt p i)) = p := by
+      funext i; simp [castPt, roundHalfUp_int]
+    simp only [nearestEvalMode, this, extValue, boundary_point_inside m g p hp]
+
+theorem nearestMode_extends (n : Nat) (m : Mode) (cval : Rat) : (nearestInterpMode n m cval).Extends m cval := by
+  intro g p
+  have : (fun i => roundHalfUp (castPt p i)) = p := by
+    funext i; simp [castPt, roundHalfUp_int]
+  simp only [nearestInterpMode, nearestEvalMode, this]
+
+/-- linear field under `mode='nearest'` (orders 0 and 1 clamp the coordinate): outside the field
+    of view the output is the field at the clamped location -/
+theorem linear_field_nearest_mode {n k : Nat} (I : Interp n) (hI : I.LinearExact) (hC : I.ClampsCoordinate)
+    (g : Grid n) (hpos : ∀ i, 0 < g.shape i) (L : Aff 1 n)
+    (hdata : ∀ p, g.inside p → g.val p = L.apply (castPt p) 0) (M : Aff n k) (v : Fin k → Int) :
+    resampled I g M v = L.apply (clampVec g (M.apply (castPt v))) 0 := by
+  unfold resampled
+  rw [hC g]
+  apply hI g L hdata
+  intro i
+  have hs : (1 : Rat) ≤ ((g.shape i : Int) : Rat) := by
+    have := hpos i
+    have h1 : (1 : Int) ≤ (g.shape i : Int) := by omega
+    exact_mod_cast h1
+  constructor
+  · beta_reduce
+    split_ifs with h1 h2
+    · exact le_refl _
+    · linarith
+    · exact not_lt.1 h1
+  · beta_reduce
+    split_ifs with h1 h2
+    · linarith
+    · exact le_refl _
+    · exact not_lt.1 h2
+
+/-- what the driver prints for field cases under a mode is that value -/
+theorem fieldExpectedMode_nearest {n k : Nat} (g : Grid n) (L : Aff 1 n) (cval : Rat) (M : Aff n k)
+    (v : Fin k → Int) :
+    fieldExpectedMode g L cval .nearest M v = some (L.apply (clampVec g (M.apply (castPt v))) 0) := by
+  unfold fieldExpectedMode
+  simp only []
+  by_cases h : g.inFovB (M.apply (castPt v)) = true
+  · rw [if_pos h]
+    have hf := (inFovB_iff g _).1 h
+    have : clampVec g (M.apply (castPt v)) = M.apply (castPt v) := by
+      funext i
+      unfold clampVec
+      rw [if_neg (not_lt.2 (hf i).1), if_neg (not_lt.2 (hf i).2)]
+    rw [this]
+  · rw [if_neg h]
+
+/-! ## Order 1 in any dimension, under every boundary mode: a concrete interpolator -/
+
+/-- `scipy.ndimage`'s `order=1` as modelled by `mlinMode` is an interpolation scheme: at array
+    indices it returns the stored sample -/
+def mlinInterp (n : Nat) (m : Mode) (cval : Rat) : Interp n where
+  eval := mlinMode m cval
+  at_lattice := by
+    intro g p hp
+    have hin : g.inFovB (castPt p) = true := by
+      rw [inFovB_iff]
+      intro i
+      have := hp i
+      constructor
+      · have h0 : (0 : Int) ≤ p i := this.1
+        simp only [castPt]; exact_mod_cast h0
+      · have h1 : p i ≤ (g.shape i : Int) - 1 := by omega
+        simp only [castPt]; exact_mod_cast h1
+    unfold mlinMode
+    by_cases hm : m = .constant
+    · rw [if_pos hm, if_pos hin, mlin_at_lattice]
+      simp only [extValue, boundary_point_inside .constant g p hp]
+    · rw [if_neg hm, mlin_at_lattice]
+      simp only [extValue, boundary_point_inside m g p hp]
+
+/-- it realises the boundary mode at every integer point, inside or outside the array -/
+theorem mlinInterp_extends (n : Nat) (m : Mode) (cval : Rat) : (mlinInterp n m cval).Extends m cval := by
+  intro g p
+  simp only [mlinInterp, mlinMode]
+  by_cases hm : m = .constant
+  · subst hm
+    rw [if_pos rfl]
+    by_cases hin : g.inFovB (castPt p) = true
+    · rw [if_pos hin, mlin_at_lattice]
+    · rw [if_neg hin]
+      have hout : ¬ g.inside p := by
+        intro hp
+        apply hin
+        rw [inFovB_iff]
+        intro i
+        have := hp i
+        constructor
+        · have h0 : (0 : Int) ≤ p i := this.1
+          simp only [castPt]; exact_mod_cast h0
+        · have h1 : p i ≤ (g.shape i : Int) - 1 := by omega
+          simp only [castPt]; exact_mod_cast h1
+      have hall : ¬ (List.finRange n).all (fun i => (extIndex .constant (g.shape i) (p i)).isSome) = true := by
+        intro hc
+        apply hout
+        intro i
+        have hs := (List.all_eq_true.1 hc) i (List.mem_finRange i)
+        by_contra hcon
+        have : extIndex .constant (g.shape i) (p i) = none := (extIndex_none_iff _ _ _).2 ⟨rfl, hcon⟩
+        rw [this] at hs
+        cases hs
+      simp only [extValue, extPoint]
+      rw [if_neg hall]
+  · rw [if_neg hm, mlin_at_lattice]
+
+/-- `mode='constant'`: the fill value as soon as the coordinate leaves the field of view -/
+theorem mlinInterp_fills_beyond (n : Nat) (cval : Rat) : (mlinInterp n .constant cval).FillsBeyond cval 0 := by
+  intro g x hx
+  obtain ⟨i, hi⟩ := hx
+  simp only [neg_zero, add_zero] at hi
+  have hin : ¬ g.inFovB x = true := by
+    rw [inFovB_iff]
+    intro h
+    have := h i
+    rcases hi with hi | hi <;> linarith [this.1, this.2]
+  simp only [mlinInterp, mlinMode, if_true]
+  rw [if_neg hin]
+
+/-- order-1 exactness in any dimension and under every mode: an array that samples an affine
+    function is interpolated to that function everywhere in the field of view — the hypotheses of
+    `linear_field_reproduced`, `fill_value_outside` and `lattice_lookup_mode` are met together by
+    this interpolator -/
+theorem mlinInterp_linear_exact (n : Nat) (m : Mode) (cval : Rat) : (mlinInterp n m cval).LinearExact := by
+  intro g L hL x hx
+  have key : ∀ m' : Mode, mlin n (extValue m' cval g) x = L.apply x 0 := by
+    intro m'
+    have hc : mlin n (extValue m' cval g) x
+        = mlin n (fun p => (∑ j, L.A 0 j * ((p j : Int) : Rat)) + L.b 0) x := by
+      apply mlin_congr
+      intro p hp
+      have hin : g.inside p := by
+        intro i
+        have hxi := hx i
+        have hfl1 : (((x i).floor : Int) : Rat) ≤ x i := by rw [floor_eq]; exact Int.floor_le _
+        have hfl0 : (0 : Int) ≤ (x i).floor := by rw [floor_eq]; exact Int.floor_nonneg.2 hxi.1
+        have hlt : (x i).floor ≤ (g.shape i : Int) - 1 := by
+          have : (((x i).floor : Int) : Rat) ≤ (((g.shape i : Int) - 1 : Int) : Rat) := by
+            rw [Int.cast_sub, Int.cast_one]; linarith [hxi.2]
+          exact_mod_cast this
+        rcases hp i with h | ⟨h, hne⟩
+        · rw [h]; omega
+        · rw [h]
+          have hlt' : (((x i).floor : Int) : Rat) < (((g.shape i : Int) - 1 : Int) : Rat) := by
+            rw [Int.cast_sub, Int.cast_one]
+            have : (((x i).floor : Int) : Rat) < x i := lt_of_le_of_ne hfl1 (Ne.symm hne)
+            linarith [hxi.2]
+          have : (x i).floor < (g.shape i : Int) - 1 := by exact_mod_cast hlt'
+          omega
+      simp only [extValue, boundary_point_inside m' g p hin]
+      rw [hL p hin]
+      simp [Aff.apply, sumFin_eq, castPt]
+    rw [hc, mlin_affine]
+    simp [Aff.apply, sumFin_eq]
+  simp only [mlinInterp, mlinMode]
+  by_cases hm : m = .constant
+  · rw [if_pos hm, if_pos ((inFovB_iff g x).2 hx)]
+    exact key .constant
+  · rw [if_neg hm]
+    exact key m
+
+/-- what the driver prints for `lin1` is the value of that interpolator -/
+theorem lin1Expected_spec {n k : Nat} (g : Grid n) (m : Mode) (cval : Rat) (M : Aff n k) (v : Fin k → Int)
+    (r : Rat) (h : lin1Expected g m cval M v = some r) : resampled (mlinInterp n m cval) g M v = r := by
+  unfold lin1Expected at h
+  simp only [] at h
+  split at h
+  · cases h
+  · exact Option.some.inj h
+
 /-! ## Non-vacuity: concrete objects meeting the hypotheses -/
 
 -- an inverse pair accepted by the driver's check (anisotropic, flipped, shifted)
@@ -413,7 +854,22 @@ example : latticeLookup (gridOfFlat 1 [5] #[10, 11, 12, 13, 14]) (some (-1))
     (⟨fun _ _ => 2, fun _ => 1⟩ : Aff 1 1) (fun _ => 2) = some (-1) := by decide +kernel
 -- the order-1 interpolator reproduces a linear ramp between samples
 example : linear1Eval 0 (gridOfFlat 1 [3] #[1, 3, 5]) (fun _ => 3 / 2) = 4 := by decide +kernel
+-- bilinear interpolation of a 2x2 array at its centre, and one voxel outside under `reflect`
+example : mlinMode .reflect 0 (gridOfFlat 2 [2, 2] #[0, 2, 4, 10]) (fun _ => 1 / 2) = 4 := by decide +kernel
+example : mlinMode .reflect 0 (gridOfFlat 2 [2, 2] #[0, 2, 4, 10]) (fun i => if i = 0 then -1 else 1 / 2) = 1 := by
+  decide +kernel
 -- the pre-pad is 12 only for pre-filtered nearest / grid-constant
 example : nPrepad 3 "nearest" = 12 ∧ nPrepad 1 "nearest" = 0 ∧ nPrepad 3 "constant" = 0 := by decide
+-- an int16 image read under `reflect` one voxel before its first sample, stored as uint8
+example : fmtStored .regNdimage .int16 (some .uint8) 1
+    (latticeLookupMode (gridOfFlat 1 [3] #[-5, 11, 300]) .reflect 1 0 (⟨fun _ _ => 1, fun _ => -1⟩ : Aff 1 1)
+      (fun _ => 0)) = "0" := by decide +kernel
+-- a typed grid: an int16 ramp
+example : (⟨fun _ => 3, fun p => ((p 0 : Int) : Rat)⟩ : Grid 1).Typed .int16 := by
+  intro p hp
+  have h := hp 0
+  rw [representable_iff .int16 (-32768) 32767 rfl]
+  simp only [] at h
+  exact ⟨p 0, rfl, by omega, by omega⟩
 
 end NipyVerif.C04
